@@ -105,7 +105,7 @@ def run(ctx):
                 elif okc:
                     # match form: the payload expression is the vector local itself
                     v_ = ob_.results[0][1]
-                    okc = v_ == ("local", vec_slots[vec][1][1]) or (Tr.addr_of_term(v_) if hasattr(Tr, "addr_of_term") else None) == vec_slots[vec] or \
+                    okc = v_ == ("local", vec_slots[vec][1][1]) or (M.noref(v_) == M.noref(Tr.local(vec_slots[vec][1][1])) and M.noref(v_)[0] == "call") or (Tr.addr_of_term(v_) if hasattr(Tr, "addr_of_term") else None) == vec_slots[vec] or \
                         any(s_["k"] == "assign" and s_["r"]["k"] == "agg" and s_["r"].get("variant") == "Some" and s_["r"]["ops"] and s_["r"]["ops"][0]["k"] in ("move", "copy")
                             and Tr.origin_local(s_["r"]["ops"][0]) == vec_slots[vec][1][1] for s_ in rr.blocks[ob_.results[0][0]]["stmts"])
             ctx.ob("R02.2", "read.result.%d=%s.map(%s)" % (k, stream, vec), okc, rr.loc(0), "component %d of the captured pair must be Some(%s) iff self.%s is held" % (k, vec, stream))
@@ -253,24 +253,50 @@ def run(ctx):
         r0 = M.Terms(f).local(0)
         src = M.noref(M.strip(r0, also=("std::borrow::Cow::<'_, B>::into_owned", "std::string::String::from_utf8_lossy")))
         ctx.ob("R02.5", "%s<-self.%s" % (meth, field), src == ("field", ("param", 1, f.local_name(1)), field) and M.contains(r0, lambda u: u[0] == "call" and u[1] == "std::string::String::from_utf8_lossy"), f.loc(0), "%s decodes %s" % (meth, M.term_str(src)))
-    pc = prog.one("popen::Popen::communicate")
-    Tp = M.Terms(pc)
-    r0 = Tp.local(0)
-    ok = r0[0] == "call" and r0[1] == "std::result::Result::<T, E>::map_err" and r0[2][0][0] == "call" and r0[2][0][1] == "communicate::Communicator::read_string" \
-        and M.strip(r0[2][0][2][0])[0] == "call" and M.strip(r0[2][0][2][0])[1] == "popen::Popen::communicate_start"
-    ctx.ob("R02.5", "Popen::communicate=start.read_string", ok, pc.loc(0), "Popen::communicate = communicate_start(bytes of input).read_string()")
-    pb = prog.one("popen::Popen::communicate_bytes")
-    r0 = M.Terms(pb).local(0)
-    ok = r0[0] == "call" and r0[1] == "std::result::Result::<T, E>::map_err" and r0[2][0][0] == "call" and r0[2][0][1] == "communicate::Communicator::read"
-    ctx.ob("R02.5", "Popen::communicate_bytes=start.read", ok, pb.loc(0), "Popen::communicate_bytes = communicate_start(input).read()")
-    for cname, want in (("popen::Popen::communicate::{closure#0}", ("as_bytes", "to_vec")), ("popen::Popen::communicate_bytes::{closure#0}", ("to_vec",))):
-        cf = prog.fn(cname)
-        if cf is None:
-            ctx.missing("R02.5", cname)
-            continue
-        names = [M.callee_str(t["f"]) for _, t in cf.calls()]
-        okc = all(any(w in n for n in names) for w in want) and len(names) == len(want)
-        ctx.ob("R02.5", "%s=whole-input" % cname.split("::")[-2], okc, cf.loc(0), "the input is converted whole (calls %s)" % [n.split("::")[-1] for n in names])
+    # Popen::communicate[_bytes] = communicate_start(the whole input, converted to bytes).read[_string](), errors passed on as their io::Error
+    for meth, reader, conv in (("popen::Popen::communicate", "communicate::Communicator::read_string", ("as_bytes", "to_vec")),
+                               ("popen::Popen::communicate_bytes", "communicate::Communicator::read", ("to_vec",))):
+        pc = prog.one(meth)
+        Tp = M.Terms(pc)
+        short = meth.split("::")[-1]
+        rd_ = pc.calls_to(lambda f: M.callee_str(f) == reader)
+        st_ = pc.calls_to(lambda f: M.callee_str(f) == "popen::Popen::communicate_start")
+        ok = len(rd_) == 1 and len(st_) == 1
+        okin = False
+        names = []
+        if ok:
+            recv = Tp.operand(rd_[0][1]["args"][0])
+            is_start = lambda u: u[0] == "call" and u[1] == "popen::Popen::communicate_start" and len(u) > 3 and u[3] == st_[0][0]
+            ok = M.contains(recv, is_start)
+            # the result: Ok payload unchanged, Err reduced to its .error
+            is_read = lambda u: u[0] == "call" and u[1] == reader and len(u) > 3 and u[3] == rd_[0][0]
+            for a_ in M.alts(Tp.local(0)):
+                if a_[0] == "agg" and a_[1][:3] == ("adt", "std::result::Result", "Ok"):
+                    v_ = M.noref(a_[2][0])
+                    ok = ok and v_[0] == "field" and v_[2] == "0" and v_[1][0] == "downcast" and v_[1][2] == "Ok" and is_read(M.noref(v_[1][1]))
+                elif a_[0] == "agg" and a_[1][:3] == ("adt", "std::result::Result", "Err"):
+                    v_ = M.noref(a_[2][0])
+                    ok = ok and v_[0] == "field" and v_[2] == "error" and M.noref(v_[1])[0] == "field" and M.noref(v_[1])[1][0] == "downcast" and M.noref(v_[1])[1][2] == "Err" \
+                        and is_read(M.noref(M.noref(v_[1])[1][1]))
+                elif is_read(M.noref(a_)):
+                    ok = False      # the CommunicateError would have to be converted
+                else:
+                    ok = False
+            ok = ok and len(M.alts(Tp.local(0))) == 2
+            # the input: Some(x) => Some(bytes of x, whole), None => None
+            inp = Tp.operand(st_[0][1]["args"][1])
+            inparam = ("param", 2, pc.local_name(2))
+            ob_ = option_body(prog, pc, Tp, inp, lambda x: M.noref(x) == inparam)
+            if ob_ is not None and ob_.none_ok and len(ob_.results) == 1 and ob_.payload is not None:
+                val = ob_.results[0][1]
+                x_ = M.noref(val)
+                while x_[0] == "call" and len(x_[2]) == 1:
+                    names.append(x_[1])
+                    x_ = M.noref(x_[2][0])
+                okin = x_ == M.noref(ob_.payload) and len(names) == len(conv) and all(any(w in n for n in names) for w in conv)
+        ctx.ob("R02.5", "Popen::%s=start.%s" % (short, reader.split("::")[-1]), ok, pc.loc(0),
+               "Popen::%s = communicate_start(input).%s(): one start, one read on it, Ok passed on unchanged, Err reduced to its io::Error" % (short, reader.split("::")[-1]))
+        ctx.ob("R02.5", "%s=whole-input" % short, okin, pc.loc(0), "the input is converted whole, Some to Some and None to None (conversion calls %s)" % [n.split("::")[-1] for n in names])
 
 
 def run_thorough(ctx):
